@@ -116,8 +116,13 @@ def hGenesis : Handler := fun j => do
              sig := if !ok || specOk then "" else "genesis:refusal" }
   | .ok mNet =>
     match gErr with
-    | some e => return { corr := false, spec := true, nontrivial := false, cls := "implRefused",
-                         detail := s!"implementation refuses with {e}, model builds" }
+    | some e =>
+      -- C11: every well-formed genome with at least one gene and an output node is expressed (any mix of enabled and
+      -- disabled genes) - a refusal here is a violation, not only a disagreement with the model
+      let wf := decide (WF g) && !g.genes.isEmpty && g.nodes.any (fun n => n.kind == Kind.output)
+      return { corr := false, spec := !wf, nontrivial := false, cls := "implRefused",
+               detail := s!"implementation refuses with {e}, model builds",
+               sig := if wf then "genesis:refusedWellFormed" else "" }
     | none =>
     let netJ ← fld out "net"
     let iNet ← parseXNet netJ
